@@ -1658,6 +1658,35 @@ def lookup(ex, name, args):
 
 
 # ------------------------------------------------------------------------------------------- tokio watch (a cell)
+class LazyEnum:
+    """value of an enum type supplied by the environment whose variant is chosen (one path per listed variant) only
+    when the program inspects it; until then it is passed around like an opaque value"""
+    def __init__(self, ex, ty, variant_names, label, payload=None):
+        self.ex = ex; self.ty = ty; self.names = variant_names; self.label = label; self.payload = payload; self.agg = None
+
+    def resolve(self):
+        if self.agg is None:
+            vs = [v['name'] for v in self.ty['info']['variants']]
+            name = self.names[self.ex.choose(len(self.names), self.label)]
+            vi = vs.index(name)
+            nf = len(self.ty['info']['variants'][vi]['fields'])
+            self.agg = Agg('adt', self.ty, vi, [Opaque((self.label, name, i)) for i in range(nf)] if self.payload is None else self.payload(name))
+        return self.agg
+
+    def discriminant(self):
+        a = self.resolve(); d = self.ty['info']['variants'][a.variant].get('discr')
+        return int(d) if d is not None else a.variant
+
+    def proj_downcast(self, a):
+        r = self.resolve()
+        if r.variant != a: raise Unmodelled(f'downcast {a} of {r!r}')
+        return r
+
+    def proj_field(self, a): return self.resolve().fields[a]
+    def py_clone(self, ex): return self
+    def __repr__(self): return f'LazyEnum({self.label}: {self.agg!r})'
+
+
 class WatchV:
     """tokio::sync::watch channel state shared by Sender and Receivers: a cell"""
     __slots__ = ('cell', 'version')
